@@ -1,21 +1,20 @@
-\* seeded sample (quick tier): NumMb random mailboxes of <= 3 messages over the
-\* full message universe; per mailbox NumLeaf single keys, and per leaf set
-\* (NumLeafSets sets of LeafSetSize random leaves) NumD1 programs of depth 1
-\* and NumD2 of depth 2; every program also in its logically equivalent
-\* spellings (Rewrites).  Run with -seed <VERIF_SEED> -fp <n>: same sample.
+\* seeded sample for the maildir backend (thorough tier): as Search_thorough.cfg,
+\* but the store numbers UIDs from 1, keeps no keywords given to APPEND and
+\* hands out \Recent unreliably (C17), so views have UIDs 1..5, no keyword
+\* and no \Recent message
 SPECIFICATION Spec
 CONSTANTS
   Exhaustive = FALSE
   Rewrites = TRUE
   MaxMsgs = 3
-  Uids = {101, 102, 103, 104, 105}
+  Uids = {1, 2, 3, 4, 5}
   SysFlags = {"Seen", "Deleted", "Flagged", "Answered", "Draft"}
-  Kws = {"kw"}
+  Kws = {}
   Sizes = {1, 2, 3}
   Days = {0, 1, 2}
   Shifts <- StdShifts
   WithNoSent = TRUE
-  WithRecent = TRUE
+  WithRecent = FALSE
   Fields = {"From", "To", "Cc", "Bcc", "Subject", "XV"}
   Tokens = {"t1", "t2"}
   LeafOps = {"ALL", "NEW", "ANSWERED", "DELETED", "DRAFT", "FLAGGED", "RECENT", "SEEN",
@@ -23,15 +22,15 @@ CONSTANTS
              "KEYWORD", "UNKEYWORD", "LARGER", "SMALLER",
              "BEFORE", "ON", "SINCE", "SENTBEFORE", "SENTON", "SENTSINCE",
              "FROM", "TO", "CC", "BCC", "SUBJECT", "HEADER", "BODY", "TEXT", "SEQ", "UID"}
-  KwKeys = {"kw", "nokw"}
+  KwKeys = {"nokw"}
   SizeKeys = {0, 1, 2, 3}
   DayKeys = {0, 1, 2, 3}
   HdrKeys = {"From", "To", "Cc", "Bcc", "Subject", "XV", "XN"}
   SeqSets <- StdSeqSets
-  UidSets <- StdUidSets
+  UidSets <- LowUidSets
   DateModes = {"ww", "wu", "uw", "uu"}
   Devs = {"BodyKeyMatchesHeaders", "UidSearchSeqSetAsUid", "DoubleNotRejected"}
-  NumMb = 24
+  NumMb = 40
   NumLeaf = 40
   NumLeafSets = 6
   LeafSetSize = 4
